@@ -140,7 +140,7 @@ Section Main.
   End Fold.
 
   (* ---------- unfolding __getitem__ ---------- *)
-  Lemma step_is_stepv vm xs v : step eqb ofZ interp vm xs v = stepv (leaf_value interp vm xs v).
+  Lemma step_is_stepv vm xs v : step eqb ofZ interp vm xs v = stepv (leaf_value eqb ofZ interp vm xs v).
   Proof. reflexivity. Qed.
 
   Lemma interp_at_new assign insts q qv r :
@@ -149,7 +149,7 @@ Section Main.
       num_of ofZ qv = Some v /\ keys_of q insts = Some ks /\ insts = template :: rest /\
       dict_get eqb v (vm_build eqb ks insts) = None /\
       exists r0,
-        fold_left (stepv (leaf_value interp (vm_build eqb ks insts) (sort_keys leb (map fst (vm_build eqb ks insts))) v))
+        fold_left (stepv (leaf_value eqb ofZ interp (vm_build eqb ks insts) (sort_keys leb (map fst (vm_build eqb ks insts))) v))
                   (fpaths template) (Some template) = Some r0 /\
         (if assign then set (qkeys q) qv r0 = Some r else r = r0).
   Proof.
@@ -207,7 +207,7 @@ Section Main.
     rewrite (vm_build_distinct _ _ _ L D).
     assert (M : map fst (combine ks (numbered insts)) = ks).
     { apply map_fst_combine. unfold numbered. etransitivity; [|symmetry; apply combine_length]. rewrite seq_length. lia. }
-    rewrite M. repeat split; auto.
+    rewrite M. split; [|split; [exact D | reflexivity]].
     apply (nth_error_In _ i). apply nth_error_combine; [exact Nx | apply numbered_nth; exact Ni].
   Qed.
 
